@@ -97,4 +97,14 @@ for _f, _id in ((guard_full, "C17.GUARD-full"), (wmc_user, "C17.WMC-user"), (pai
                 (unequal_row, "C17.DTAB-unequal")):
     _f.rule_id = _id
 
-RULES = [guard_full, wmc_user, pair, unequal_row]
+def wmw_force_stale(ctx, prog):
+    R = "C17.WMW-force-stale"
+    ctx.rule(R, "per-key (expert) nodes are marked stale only by make_stale / add / remove dependency: no other store of "
+                "force_stale = true (e.g. on becoming unobservable), which would recompute every key after a re-observe")
+    from .shared import expert_flag_writers
+    expert_flag_writers(ctx, prog, R, fields=("force_stale",))
+
+
+wmw_force_stale.rule_id = "C17.WMW-force-stale"
+
+RULES = [guard_full, wmc_user, pair, unequal_row, wmw_force_stale]
